@@ -61,6 +61,9 @@ func checkC09(c *Ctx, r *Result, tier string) {
 	// R09b worker loop
 	c09WorkerLoop(c, r)
 
+	// R09d polling-loop exit conditions
+	c09ExitConditions(c, r)
+
 	// R09c
 	checkLockOrder(c, r, lfs, "R09c", engineLockClass)
 }
@@ -329,4 +332,147 @@ func c09PopHandedOn(c *Ctx, pv ssa.Value, pf *ssa.Function, depth int) (returned
 		return returned, all
 	}
 	return
+}
+
+// c09ExitConditions (R09d): the polling loops of WaitAll / JoinAll / SetWorkerCount leave only
+// under the condition their contract names, decided path-sensitively at every loop exit.
+func c09ExitConditions(c *Ctx, r *Result) {
+	fWorkers := c.Field("engine/pool", "ThreadPool", "workerMap")
+	fIdle := c.Field("engine/pool", "ThreadPool", "workerIdleMap")
+	queueIface := c.Interface("engine/pool", "TaskQueue")
+	if fWorkers == nil || fIdle == nil || queueIface == nil {
+		r.Undecide("R09d: ThreadPool.workerMap / workerIdleMap / TaskQueue not found")
+		return
+	}
+	isLenOf := func(v ssa.Value, f *types.Var) bool {
+		call, ok := unspill(v).(*ssa.Call)
+		if !ok || !isBuiltinCall(call, "len") {
+			return false
+		}
+		ch := fieldChain(call.Call.Args[0])
+		return len(ch) > 0 && ch[len(ch)-1] == f
+	}
+	isQueueSize := func(v ssa.Value) bool {
+		call, ok := unspill(v).(*ssa.Call)
+		return ok && call.Call.IsInvoke() && call.Call.Method.Name() == "Size" && types.Identical(call.Call.Value.Type().Underlying(), queueIface)
+	}
+	type spec struct {
+		name string
+		want string
+	}
+	n := 0
+	for _, sp := range []spec{
+		{"WaitAll", "no workers, or (all workers idle and no task queued)"},
+		{"JoinAll", "no workers and no task queued"},
+		{"SetWorkerCount", "the worker count equals the requested count"},
+	} {
+		fn := c.Method("engine/pool", "ThreadPool", sp.name)
+		if fn == nil {
+			r.Undecide("R09d: ThreadPool.%s not found", sp.name)
+			continue
+		}
+		key := c.FuncKey(fn)
+		// the polling loop: the SCC containing a Broadcast
+		var loop map[*ssa.BasicBlock]bool
+		allInstrs(fn, func(in ssa.Instruction) {
+			if op, ok := condOpOf(in); ok && op.Kind == "Broadcast" {
+				if scc := sccOf(in.Block()); scc != nil {
+					loop = scc
+				}
+			}
+		})
+		if loop == nil {
+			r.Undecide("R09d: no polling loop (re-broadcasting) found in %s", key)
+			continue
+		}
+		// conditions
+		var noWorkers, allIdle, noTasks, countReached []ssa.Value
+		allInstrs(fn, func(in ssa.Instruction) {
+			bo, ok := in.(*ssa.BinOp)
+			if !ok || bo.Op != token.EQL || !loop[bo.Block()] {
+				return
+			}
+			k, isC := constInt(bo.Y)
+			switch {
+			case isLenOf(bo.X, fWorkers) && isC && k == 0:
+				noWorkers = append(noWorkers, bo)
+			case (isLenOf(bo.X, fWorkers) && isLenOf(bo.Y, fIdle)) || (isLenOf(bo.Y, fWorkers) && isLenOf(bo.X, fIdle)):
+				allIdle = append(allIdle, bo)
+			case isQueueSize(bo.X) && isC && k == 0:
+				noTasks = append(noTasks, bo)
+			case isLenOf(bo.X, fWorkers) && len(fn.Params) > 1 && stripNumConv(bo.Y) != nil && isCountParam(bo.Y, fn):
+				countReached = append(countReached, bo)
+			case isLenOf(bo.Y, fWorkers) && isCountParam(bo.X, fn):
+				countReached = append(countReached, bo)
+			}
+		})
+		bad := ""
+		exits := 0
+		o := &PathOracle{}
+		anyTrue := func(st *PState, vs []ssa.Value) bool {
+			for _, v := range vs {
+				if st.Get(v, o) == AvNonNil {
+					return true
+				}
+			}
+			return false
+		}
+		inLoopPrev := map[*PState]bool{}
+		_ = inLoopPrev
+		o.Visit = func(st *PState, in ssa.Instruction) {
+			b := in.Block()
+			if loop[b] || instrIndex(in) != 0 {
+				return
+			}
+			// first instruction of a block outside the loop: did we come from inside?
+			if len(st.Trace) < 2 || !loop[st.Trace[len(st.Trace)-2]] {
+				return
+			}
+			exits++
+			ok := false
+			switch sp.name {
+			case "WaitAll":
+				ok = anyTrue(st, noWorkers) || (anyTrue(st, allIdle) && anyTrue(st, noTasks))
+			case "JoinAll":
+				ok = anyTrue(st, noWorkers) && anyTrue(st, noTasks)
+			case "SetWorkerCount":
+				ok = anyTrue(st, countReached)
+			}
+			if !ok {
+				bad = "the polling loop can be left although not (" + sp.want + ")"
+			}
+		}
+		if !ExplorePaths(fn, o) {
+			r.Undecide("R09d: path exploration of %s exceeded its bound", key)
+			continue
+		}
+		n++
+		site := key + "#poll-exit"
+		pos := c.Pos(fn.Pos())
+		if exits == 0 {
+			r.Undecide("R09d: no exit of the polling loop of %s was explored", key)
+		} else if bad != "" {
+			r.Instance("R09d", site, pos, "finding", bad, true)
+			r.Report(Finding{Rule: "R09d", Site: site, Pos: pos, Msg: key + ": " + bad + " — the call returns before its contract holds"})
+		} else {
+			r.Instance("R09d", site, pos, "ok", fmt.Sprintf("every exit of the polling loop (%d explored) is taken under: %s", exits, sp.want), true)
+		}
+	}
+	r.Floor("R09d", n, 3)
+}
+
+func isCountParam(v ssa.Value, fn *ssa.Function) bool {
+	v = unspill(stripNumConv(v))
+	// the count parameter may be clamped (`if count < 0 { count = 0 }`): a phi of the parameter and a constant
+	if p, ok := v.(*ssa.Parameter); ok {
+		return p.Parent() == fn && p.Name() == "count"
+	}
+	if phi, ok := v.(*ssa.Phi); ok {
+		for _, e := range phi.Edges {
+			if p, ok := e.(*ssa.Parameter); ok && p.Name() == "count" {
+				return true
+			}
+		}
+	}
+	return false
 }
